@@ -2,7 +2,7 @@
 """Generate MANIFEST.json from checks.json (single source of truth for what each check claims)."""
 import json, os
 ROOT = os.path.dirname(os.path.dirname(os.path.abspath(__file__)))
-cfg = json.load(open(os.path.join(ROOT, "checks.json")))
+cfg = {k: v for k, v in json.load(open(os.path.join(ROOT, "checks.json"))).items() if not k.startswith("_")}
 NA = {
  "C03": "compares whole ApplyBlock runs across node paths, goroutine schedules of the parallel tree commit and process-wide caches; needs pebble, goroutines and the protobuf runtime, none of which the SSA->SMT engine can encode",
  "C09": "quantifies over crash instants between pebble's file-system operations; no Go-level code the engine can execute symbolically and no scalar kernel",
